@@ -81,7 +81,11 @@ def gen_case(rng, keys, allow_bls):
         rng.shuffle(contents)
     else:
         contents = []
-    return {'curve': curve, 'key': key, 'chain_id': chain, 'group': {'branch': branch, 'contents': contents}}
+    # how the group object comes about: fresh, or derived from a group that was already sent (it carries the old signature and
+    # the hash reported by the node; _spawn copies both into every derived group)
+    lineage = rng.choice(['fresh', 'fresh', 'fresh', 'extended', 'extended', 'resigned'])
+    return {'curve': curve, 'key': key, 'chain_id': chain, 'group': {'branch': branch, 'contents': contents}, 'lineage': lineage,
+            'stale_hash': G.b58o(G.rand_bytes(rng, 32)), 'stale_signature': G.b58('sig', G.rand_bytes(rng, 64))}
 
 
 def run_impl(case):
@@ -99,8 +103,18 @@ def run_impl(case):
         return orig(message=message, generic=generic)
     key.sign = spy
     try:
-        opg = OperationGroup(context=ExecutionContext(key=key), contents=[dict(c) for c in g['contents']], branch=g['branch'],
-                             chain_id=case['chain_id'])
+        ctx_ = ExecutionContext(key=key)
+        lineage = case.get('lineage', 'fresh')
+        contents = [dict(c) for c in g['contents']]
+        if lineage == 'extended' and contents:      # a sent group is extended by one more content, then signed again
+            parent = OperationGroup(context=ctx_, contents=contents[:-1], branch=g['branch'], chain_id=case['chain_id'],
+                                    signature=case['stale_signature'], opg_hash=case['stale_hash'])
+            opg = parent.operation(contents[-1])
+        elif lineage == 'resigned':                 # a group that carries an old signature/hash is signed again
+            opg = OperationGroup(context=ctx_, contents=contents, branch=g['branch'], chain_id=case['chain_id'],
+                                 signature=case['stale_signature'], opg_hash=case['stale_hash'])
+        else:
+            opg = OperationGroup(context=ctx_, contents=contents, branch=g['branch'], chain_id=case['chain_id'])
         ok, res = lib.call(opg.sign)
     finally:
         del key.sign
@@ -219,7 +233,7 @@ def run(ctx: lib.Ctx) -> None:
         out = run_impl(case)
         must = spec_expect(case) is not None
         ctx.case((case['curve'], case['key'].secret_exponent.hex(), case['chain_id'], json.dumps(case['group'], sort_keys=True)), nontrivial=must,
-                 kind=f"{CURVES[case['curve']]}:{'signable' if must else 'refused'}:{'ok' if out['ok'] else 'raised'}",
+                 kind=f"{CURVES[case['curve']]}:{'signable' if must else 'refused'}:{'ok' if out['ok'] else 'raised'}:{case.get('lineage', 'fresh')}",
                  sample={'curve': CURVES[case['curve']], 'kinds': [c['kind'] for c in case['group']['contents']], 'chain_id': case['chain_id'],
                          'signed': out['ok'], 'signature': out.get('signature'), 'hash': out.get('hash')})
         coq_cases.append(coq_case(case, out))
@@ -265,7 +279,10 @@ def run(ctx: lib.Ctx) -> None:
 
 def replay_doc(case, out):
     d = {'curve': CURVES[case['curve']], 'secret_exponent': case['key'].secret_exponent.hex(), 'chain_id': case['chain_id'], 'group': case['group'],
-         'repro': 'OperationGroup(context=ExecutionContext(key=Key.from_secret_exponent(bytes.fromhex(secret_exponent), curve)), '
+         'lineage': case.get('lineage', 'fresh'), 'stale_hash': case.get('stale_hash'), 'stale_signature': case.get('stale_signature'),
+         'repro': 'lineage fresh: as below; extended: OperationGroup(.., contents[:-1], signature=stale_signature, opg_hash=stale_hash).operation(contents[-1]); '
+                  'resigned: OperationGroup(.., contents, signature=stale_signature, opg_hash=stale_hash); then: '
+                  'OperationGroup(context=ExecutionContext(key=Key.from_secret_exponent(bytes.fromhex(secret_exponent), curve)), '
                   'contents=group["contents"], branch=group["branch"], chain_id=chain_id).sign() then .binary_payload(), .hash()'}
     if out:
         d['observed'] = {k: (v.hex() if isinstance(v, (bytes, bytearray)) else v) for k, v in out.items()}
@@ -276,7 +293,8 @@ def replay(ctx, doc):
     from pytezos.crypto.key import Key
     cv = {v: k for k, v in CURVES.items()}[doc['curve']]
     case = {'curve': cv, 'key': Key.from_secret_exponent(bytes.fromhex(doc['secret_exponent']), curve=cv), 'chain_id': doc['chain_id'],
-            'group': doc['group']}
+            'group': doc['group'], 'lineage': doc.get('lineage', 'fresh'), 'stale_hash': doc.get('stale_hash'),
+            'stale_signature': doc.get('stale_signature')}
     out = run_impl(case)
     why = oracle(case, out)
     print(json.dumps({'verdict': why, 'observed': {k: (v.hex() if isinstance(v, (bytes, bytearray)) else v) for k, v in out.items()}}, indent=1))
